@@ -49,7 +49,8 @@ func genC12(t *rapid.T, thorough bool) C12Case {
 }
 
 func checkC12(c C12Case, o *Obs) error {
-	src := window(c.Src) // valid bases follow the sequence in its backing array
+	// either an exact-capacity slice (nil when empty) or a window with valid bases behind it
+	src := window(c.Src, (len(c.Src)+len(c.Dst)+c.K+c.Spare)%2 == 0)
 	k := c.K
 	if k < 1 {
 		k = 1
@@ -180,6 +181,35 @@ func checkC12(c C12Case, o *Obs) error {
 	ritems, err := collect(want)
 	if err != nil {
 		return err
+	}
+	// The value returned by CanonicalSubsequences stands for the sequence: ranging over it
+	// again, also after an abandoned pass, yields the items again.
+	{
+		it := sequtil.CanonicalSubsequences(src, k)
+		for pass := 0; pass < 3; pass++ {
+			n := 0
+			var bad error
+			if p := catch(func() {
+				for x := range it {
+					if n >= len(items) || !bytes.Equal(x, items[n]) {
+						bad = fmt.Errorf("pass %d over the same iterator value of CanonicalSubsequences(%q,%d): item %d is %q", pass, src, k, n, x)
+						return
+					}
+					n++
+					if pass == 1 && n == len(items)/2+1 {
+						return // abandon this pass
+					}
+				}
+			}); p != nil {
+				return fmt.Errorf("pass %d over the same iterator value of CanonicalSubsequences(%q,%d) panicked: %v", pass, src, k, p)
+			}
+			if bad != nil {
+				return bad
+			}
+			if pass != 1 && n != len(items) {
+				return fmt.Errorf("pass %d over the same iterator value of CanonicalSubsequences(%q,%d) yields %d items, want %d", pass, src, k, n, len(items))
+			}
+		}
 	}
 	// An iterator obtained before the sequence buffer is refilled: whatever it iterates over
 	// (the content at call time or at range time), it must be one of the two, consistently.
